@@ -10,12 +10,14 @@ mod h_assert;
 mod h_c08;
 mod h_cmp;
 mod h_conv;
+mod h_datetime;
 mod h_html;
 mod h_list;
 mod h_parse;
 mod h_prog;
 mod h_simplify;
 mod h_sound;
+mod h_string;
 mod h_token;
 mod session;
 mod sym;
@@ -48,6 +50,9 @@ const ENTRIES: &[(&str, Entry)] = &[
     ("h_c03_arith", h_arith::h_c03_arith),
     ("h_c01_sound", h_sound::h_c01_sound),
     ("h_c08_tokenizer", h_token::h_c08_tokenizer),
+    ("h_c19_add", h_datetime::h_c19_add),
+    ("h_c19_add_text", h_datetime::h_c19_add_text),
+    ("h_c15_string", h_string::h_c15_string),
     ("h_c10_parse", h_parse::h_c10_parse),
     ("h_c18_step", h_list::h_c18_step),
     ("h_c18_hist", h_list::h_c18_hist),
